@@ -54,9 +54,8 @@ def merge_extra(parts, tier):
     return sc.cover_merge(parts)
 
 
-def describe(at):
-    from matid.symmetry import SymmetryAnalyzer
-    an = SymmetryAnalyzer(at, symmetry_tol=sc.TOL)
+def describe(c):
+    an = sc.new_analyzer(c)
     sets = an.get_wyckoff_sets_conventional(False)
     d = {
         "material_id": an.get_material_id(),
@@ -85,10 +84,10 @@ def run_case(desc):
     if c1.sg != c2.sg:
         out.discard = "ill-conditioned"
         return out
-    ok, r1 = call(describe, c1.at)
+    ok, r1 = call(describe, c1)
     if not ok:
         return out.fail("returns-normally", "%r" % r1, key="exc:" + exc_key(r1))
-    ok, r2 = call(describe, c2.at)
+    ok, r2 = call(describe, c2)
     if not ok:
         return out.fail("returns-normally", "%r" % r2, key="exc:" + exc_key(r2))
     (d1, conv1), (d2, conv2) = r1, r2
